@@ -60,9 +60,9 @@ Lemma nested_rebuild1 T AT ct kc : tok T -> afacts T AT ->
   nested_rebuild ct (nb1 false T AT) (na1 T AT (v_full T) kc) (PKc1 T AT) (PKr1 T AT).
 Proof.
   intros HT AF Hkc. constructor.
-  - intros attr sk ms ml fs k Ha [Hfs Hi]. destruct Hkc as [-> | Hno].
+  - intros attr sk ms ml fs xr k Ha [Hfs Hi]. destruct Hkc as [-> | Hno].
     + cbn [na1 na_code nb1 nb_code]. unfold accept_code, build_code.
-      rewrite (frames_flag_full T AT (af_shape _ _ AF)), Hfs. eexists. split; [reflexivity|].
+      rewrite (frames_flag_full T AT (af_shape _ _ AF)), (exc_replayed_ok T AT (af_shape _ _ AF)), Hfs. eexists. split; [reflexivity|].
       exact (rebuild0 (rt_code T) [] (at_code AT) AT k (tk_code T HT) (af_code _ _ AF) Hi).
     + exfalso. unfold act_full in Ha. destruct (dispatch_in_arms _ _ _ _ Ha) as (a & Hin & Hact).
       unfold no_action in Hno. pose proof (forallb_In' _ _ _ Hno Hin) as Hp. cbv beta in Hp. rewrite Hact in Hp. discriminate.
@@ -214,7 +214,7 @@ Lemma step_strict_lenient {K} ct ac (nbs nbl : nbuild K) (st st' : titem K) e :
   (forall es k, nb_rc nbs es = Ok k -> nb_rc nbl es = Ok k) ->
   build_step true ct ac nbs st e = Ok st' -> build_step false ct ac nbl st e = Ok st'.
 Proof.
-  intros Hc Hr. destruct e as [name raw body | d sy | slot srcs | attr | attr ms ml fs es | attr k n d [es|] | | ];
+  intros Hc Hr. destruct e as [name raw body | d sy | slot srcs | attr | attr ms ml fs xr es | attr k n d [es|] | | ];
     cbn [build_step]; try discriminate; try (intros H; exact H).
   - destruct (act_full ct name) as [[| | [|? ?] | [|] | |]|]; try discriminate; try (intros H; exact H).
     + destruct raw; [discriminate|]. destruct (row_of ac name); [|discriminate]. apply fill_strict_lenient.
